@@ -4,6 +4,7 @@ import (
 	"bytes"
 	"flag"
 	"math/rand"
+	"sync"
 )
 
 func init() {
@@ -91,6 +92,18 @@ func cmdC06(args []string) error {
 			a := &agg{}
 			present(a, 0, key, "k", u, c)
 			flush("identity", a)
+			// a recycled key buffer, straight after the authentic use: the very slice the message was encrypted under now holds
+			// an unrelated key (nothing the library remembers about a key may outlive the bytes it was told); then the same
+			// unrelated key in a fresh slice, and the authentic key again
+			a = &agg{}
+			saved := append([]byte{}, key...)
+			k3 := randKey(r, et)
+			copy(key, k3)
+			present(a, -10, key, "other", u, c)
+			present(a, -11, append([]byte{}, k3...), "other", u, c)
+			copy(key, saved)
+			present(a, -12, key, "k", u, c)
+			flush("recycled", a)
 			// every single-bit flip of the whole ciphertext
 			a = &agg{}
 			for bit := 0; bit < 8*len(c); bit++ {
@@ -146,6 +159,57 @@ func cmdC06(args []string) error {
 				present(a, i, k2, "other", u, c)
 			}
 			flush("key", a)
+			// the flips once more, presented by several goroutines at once while others keep decrypting the authentic message
+			// (decryption is a function of its arguments: what one caller presents must not depend on what another does)
+			if li%4 == int(*seed)%4 || *tier == "thorough" {
+				a = &agg{}
+				var mu sync.Mutex
+				var wg sync.WaitGroup
+				stop := make(chan struct{})
+				for g := 0; g < 4; g++ {
+					wg.Add(1)
+					go func() {
+						defer wg.Done()
+						for {
+							select {
+							case <-stop:
+								return
+							default:
+							}
+							catch(func() { e.DecryptMessage(append([]byte{}, key...), append([]byte{}, c...), u) })
+						}
+					}()
+				}
+				const workers = 8
+				var wg2 sync.WaitGroup
+				for g := 0; g < workers; g++ {
+					wg2.Add(1)
+					go func(g int) {
+						defer wg2.Done()
+						local := &agg{}
+						for rep := 0; rep < 3; rep++ {
+							for bit := g; bit < 8*len(c); bit += workers {
+								m := append([]byte{}, c...)
+								m[bit/8] ^= 0x80 >> uint(bit%8)
+								present(local, bit, append([]byte{}, key...), "k", u, m)
+							}
+						}
+						mu.Lock()
+						a.total += local.total
+						a.leaks += local.leaks
+						a.succ = append(a.succ, local.succ...)
+						a.panics = append(a.panics, local.panics...)
+						mu.Unlock()
+					}(g)
+				}
+				wg2.Wait()
+				close(stop)
+				wg.Wait()
+				if len(a.panics) > 5 {
+					a.panics = a.panics[:5]
+				}
+				flush("flip-concurrent", a)
+			}
 		}
 	}
 	return nil
